@@ -139,8 +139,8 @@ def storeLifetimes (cfg : Cfg) (ttl : Int) : C02Spec.StoreDurations :=
     shard := ChunkStore.nodeTtl cfg.node ttl * ns,
     announce := ChunkStore.nodeTtl cfg.node ttl * ns }
 
-theorem storeLifetimes_bridge (raw : Raw) (e : Env) (ttl steady wall : Int) :
-    storeLifetimes (sysCfg raw e) ttl = Ttl.storeChunk raw ttl steady wall := by
+theorem storeLifetimes_bridge (raw : Raw) (e : Env) (ttl steady wall : Int) (prevShard : Int := 0) :
+    storeLifetimes (sysCfg raw e) ttl = Ttl.storeChunk raw ttl steady wall prevShard := by
   simp only [storeLifetimes, Ttl.storeChunk, Ttl.chunkStorePut, sysCfg, nodeTtl_bridge, effTtl_bridge,
     compute_expiry, publish_shards_expires, add_contact_expires, announce_chunk_contact_ttl,
     store_chunk_manifest_expires, store_chunk_shard_ttl, store_chunk_announce_ttl, store_chunk_put_ttl,
@@ -155,9 +155,12 @@ theorem store_bounds (raw : Raw) (e : Env) (ttl : Int) :
     (0 < (storeLifetimes (sysCfg raw e) ttl).shard ∧ (storeLifetimes (sysCfg raw e) ttl).shard ≤ maxNs (sysCfg raw e)) ∧
     (0 < (storeLifetimes (sysCfg raw e) ttl).announce ∧ (storeLifetimes (sysCfg raw e) ttl).announce ≤ maxNs (sysCfg raw e)) ∧
     maxNs (sysCfg raw e) ≤ dayNs := by
-  have hs := C02.store raw ttl 0 0
-  rw [← storeLifetimes_bridge raw e ttl 0 0] at hs
   have hmin := min_pos raw e
+  have hmm := min_le_max raw e
+  have hs := C02.store raw ttl 0 0 0 (by
+    have e2 : (Ttl.effective raw).max_manifest_ttl = (sysCfg raw e).node.maxTtl := rfl
+    rw [e2]; omega)
+  rw [← storeLifetimes_bridge raw e ttl 0 0 0] at hs
   have hday := maxNs_le_day raw e
   simp only [C02Spec.StoreOk, C02Spec.DurationOk, C02Spec.nsPerS] at hs
   obtain ⟨⟨a1, a2⟩, ⟨b1, b2⟩, ⟨c1, c2⟩, ⟨d1, d2⟩⟩ := hs
@@ -173,15 +176,15 @@ theorem store_bounds (raw : Raw) (e : Env) (ttl : Int) :
 open EphVerif.MTtl (Write writes Path)
 open EphVerif.C03Spec (Slot)
 
-theorem ingest_writes_bridge (raw : Raw) (e : Env) (now E t : Int)
+theorem ingest_writes_bridge (raw : Raw) (e : Env) (now E t : Int) (prev : Int)
     (h : manifestTtl (sysCfg raw e) (now + e.wallOff) E = some t) :
-    writes (Ttl.effective raw) e.wallOff now E .ingest = some [⟨.shard, now + t * ns⟩] := by
+    writes (Ttl.effective raw) e.wallOff now E prev .ingest = some [⟨.shard, now + t * ns⟩] := by
   rw [manifestTtl_bridge] at h
   simp only [writes, ingest_ttl_source, h, publish_shards_expires, ingest_shard_ttl, ns]
 
-theorem announce_writes_bridge (raw : Raw) (e : Env) (now E t : Int) (p : String) (ttl : Int)
+theorem announce_writes_bridge (raw : Raw) (e : Env) (now E t : Int) (p : String) (ttl : Int) (prev : Int)
     (h : manifestTtl (sysCfg raw e) (now + e.wallOff) E = some t) :
-    writes (Ttl.effective raw) e.wallOff now E (.announce p ttl true false false) =
+    writes (Ttl.effective raw) e.wallOff now E prev (.announce p ttl true false false) =
       some [⟨.shard, now + t * ns⟩, ⟨.contact p, now + advertised (sysCfg raw e) ttl t * ns⟩] := by
   rw [manifestTtl_bridge] at h
   rw [advertised_bridge]
@@ -193,9 +196,9 @@ theorem announce_writes_bridge (raw : Raw) (e : Env) (now E t : Int) (p : String
 theorem manifest_shard_bounds (raw : Raw) (e : Env) (now E t : Int)
     (h : manifestTtl (sysCfg raw e) (now + e.wallOff) E = some t) :
     0 < t * ns ∧ t * ns ≤ maxNs (sysCfg raw e) ∧ now + t * ns + e.wallOff ≤ E := by
-  have hw := ingest_writes_bridge raw e now E t h
-  have hc := C03.cap raw e.wallOff now E .ingest _ hw ⟨.shard, now + t * ns⟩ (by simp)
-  have hd := C03.derived raw e.wallOff now E .ingest _ hw ⟨.shard, now + t * ns⟩ (by simp)
+  have hw := ingest_writes_bridge raw e now E t 0 h
+  have hc := C03.cap raw e.wallOff now E 0 .ingest _ hw ⟨.shard, now + t * ns⟩ (by simp)
+  have hd := C03.derived raw e.wallOff now E 0 .ingest _ hw ⟨.shard, now + t * ns⟩ (by simp)
   simp only [Write.wall, C03Spec.NotAfterManifest] at hc hd
   have hp := (C05L.manifestTtl_some h).2
   have := C05L.mul_ns_pos hp
@@ -210,11 +213,11 @@ theorem announce_contact_bounds (raw : Raw) (e : Env) (now E t : Int) (p : Strin
     (h : manifestTtl (sysCfg raw e) (now + e.wallOff) E = some t) :
     0 < advertised (sysCfg raw e) ttl t * ns ∧ advertised (sysCfg raw e) ttl t * ns ≤ maxNs (sysCfg raw e) ∧
     now + advertised (sysCfg raw e) ttl t * ns + e.wallOff ≤ E := by
-  have hw := announce_writes_bridge raw e now E t p ttl h
+  have hw := announce_writes_bridge raw e now E t p ttl 0 h
   have hm : (⟨.contact p, now + advertised (sysCfg raw e) ttl t * ns⟩ : Write) ∈
       [⟨.shard, now + t * ns⟩, ⟨.contact p, now + advertised (sysCfg raw e) ttl t * ns⟩] := by simp
-  have hc := C03.cap raw e.wallOff now E _ _ hw _ hm
-  have hd := C03.derived raw e.wallOff now E _ _ hw _ hm
+  have hc := C03.cap raw e.wallOff now E 0 _ _ hw _ hm
+  have hd := C03.derived raw e.wallOff now E 0 _ _ hw _ hm
   simp only [Write.wall, C03Spec.NotAfterManifest] at hc hd
   have hp := C05L.mul_ns_pos (C05L.clampChunkTtl_pos
     (if (if ttl > 0 then ttl else t) > t then t else (if ttl > 0 then ttl else t)) (sysCfg raw e).node.minTtl (sysCfg raw e).node.maxTtl)
